@@ -59,18 +59,18 @@ def _is_ws(m, args, raw):
     return z3.Or([c == v for v in (0x20, 0x09, 0x0A, 0x0C, 0x0D)])
 
 
-@model("Cow::into_owned", "^<String as Into(<.*>)?>::into$", "^<Vec<u8> as Into(<.*>)?>::into$")
+@model("String::from_utf8_lossy", "Cow::into_owned", "^<String as Into(<.*>)?>::into$", "^<Vec<u8> as Into(<.*>)?>::into$")
 def _bytes_identity(m, args, raw):
+    """global (inherited by the modules that import this one): the lossy conversion as the identity - right for the ASCII / valid UTF-8 text those modules
+    feed it; this module's own Machine overrides String::from_utf8_lossy with std's contract (READER_NATIVES)"""
     v = deref(args[0])
     if isinstance(v, SliceRef):
         return Struct("Bytes", [list(v.items[v.start:v.end])])
     return v
 
 
-@model("slice::to_vec", "<[u8] as ToOwned>::to_owned", "<OsString as OsStringExt>::from_vec", "OsStringExt::from_vec", "<OsStr as OsStrExt>::from_bytes", "OsStrExt::from_bytes",
-       "<OsStr as ToOwned>::to_owned", "OsStr::to_os_string")
-def _bytes_raw(m, args, raw):
-    """conversions that keep the bytes as they are (std's contract for the unix OsString extension traits)"""
+def _bytes_raw(m, args):
+    """conversions that keep the bytes as they are (std's contract for the unix OsStr / OsString extension traits)"""
     v = deref(args[0])
     if isinstance(v, SliceRef):
         return Struct("Bytes", [list(v.items[v.start:v.end])])
@@ -90,30 +90,15 @@ def _bytes_of(v):
     raise Unsupported("bytes of %r" % (v,))
 
 
-@model("String::new")
-def _string_new(m, args, raw):
-    return Struct("Bytes", [[]])
-
-
-@model("String::push_str")
-def _string_push_str(m, args, raw):
+# a String built by a reader is carried as its bytes; these are natives of this module's Machine only (other modules import this one and must not inherit them)
+def _string_push_str(m, args):
     deref(args[0]).fields[0].extend(_bytes_of(args[1]))
     return UNIT
 
 
-@model("String::is_empty", "String::len", "str::is_empty", "str::len")
-def _string_len(m, args, raw):
-    n = len(_bytes_of(args[0]))
-    return n == 0 if raw.endswith("is_empty") else n
 
 
-@model("<Cow as Deref>::deref", "<String as Deref>::deref", "String::as_str", "<Cow as AsRef>::as_ref")
-def _string_deref(m, args, raw):
-    return deref(args[0])
-
-
-@model("String::from_utf8_lossy")
-def _from_utf8_lossy(m, args, raw):
+def _from_utf8_lossy(m, args):
     """std's contract: valid UTF-8 is kept, every maximal invalid sequence becomes U+FFFD (EF BF BD).  A byte below 0x80 stays as it is whatever its
     neighbours are, so it is not pinned; a byte >= 0x80 is pinned (the path forks over the alphabet's non-ASCII members) and decoded with its neighbours."""
     v = deref(args[0])
@@ -148,6 +133,18 @@ def _from_utf8_lossy(m, args, raw):
         # invalid: Rust replaces the maximal invalid prefix; for the alphabets used here (lone continuation bytes, a lead byte without its tail) that is one byte
         out.extend([0xEF, 0xBF, 0xBD]); i += 1
     return Struct("Bytes", [out])
+
+
+STRING_NATIVES = {
+    "String::new": lambda m, a: Struct("Bytes", [[]]), "String::push_str": _string_push_str,
+    "String::is_empty": lambda m, a: len(_bytes_of(a[0])) == 0, "str::is_empty": lambda m, a: len(_bytes_of(a[0])) == 0,
+    "String::len": lambda m, a: len(_bytes_of(a[0])), "str::len": lambda m, a: len(_bytes_of(a[0])),
+    "<Cow as Deref>::deref": lambda m, a: deref(a[0]), "<String as Deref>::deref": lambda m, a: deref(a[0]), "String::as_str": lambda m, a: deref(a[0]),
+    "<Cow as AsRef>::as_ref": lambda m, a: deref(a[0]),
+    "String::from_utf8_lossy": _from_utf8_lossy,
+    "slice::to_vec": _bytes_raw, "<[u8] as ToOwned>::to_owned": _bytes_raw, "<OsString as OsStringExt>::from_vec": _bytes_raw, "OsStringExt::from_vec": _bytes_raw,
+    "<OsStr as OsStrExt>::from_bytes": _bytes_raw, "OsStrExt::from_bytes": _bytes_raw, "<OsStr as ToOwned>::to_owned": _bytes_raw, "OsStr::to_os_string": _bytes_raw,
+}
 
 
 @model("Error::new", "Error::kind")
@@ -313,6 +310,7 @@ def explore(kind, n, alphabet, funcs, index, enums):
         return UNIT
 
     natives = {"<R as Read>::read": read, "<BufReader as BufRead>::read_until": read_until, "<BufReader as BufRead>::fill_buf": fill_buf, "<BufReader as BufRead>::consume": consume}
+    natives.update(STRING_NATIVES)
     m = Machine(funcs, index, enums, models, natives=natives, max_steps=2000000)
     m.alphabet = alphabet
     m.base_constraints = [z3.Or([b == a for a in alphabet]) for b in data] + ([z3.Or([delim == a for a in alphabet])] if kind == "bytes" else [])
